@@ -42,9 +42,18 @@ def index(e, k):
     if isinstance(e, (ast.GeneratorExp, ast.ListComp)) and len(e.generators) == 1 and not e.generators[0].ifs \
             and isinstance(e.generators[0].target, ast.Name):
         g = e.generators[0]
-        if isinstance(g.iter, (ast.Tuple, ast.List)) and k < len(g.iter.elts):
-            return sym.subst(e.elt, {g.target.id: g.iter.elts[k]})
-        return sym.subst(e.elt, {g.target.id: ast.Subscript(value=clone(g.iter), slice=ast.Constant(k), ctx=ast.Load())})
+        item = g.iter.elts[k] if isinstance(g.iter, (ast.Tuple, ast.List)) and k < len(g.iter.elts) and not any(isinstance(x, ast.Starred) for x in g.iter.elts) \
+            else ast.Subscript(value=clone(g.iter), slice=ast.Constant(k), ctx=ast.Load())
+        out = sym.subst(e.elt, {g.target.id: item})
+        # the variable may already have been resolved to `__elem__(iterable)`: that element is entry k too
+        key = ast.dump(g.iter)
+
+        class T(ast.NodeTransformer):
+            def visit_Call(self, node):
+                if is_synth(node, "__elem__") and len(node.args) == 1 and ast.dump(node.args[0]) == key:
+                    return clone(item)
+                return self.generic_visit(node)
+        return T().visit(out)
     return ast.Subscript(value=clone(e), slice=ast.Constant(k), ctx=ast.Load())
 
 
@@ -65,6 +74,15 @@ def target_value(target, value, name):
 
 def loop_binding(target, it, name):
     """value bound to `name` by `for target in it`"""
+    if isinstance(it, ast.Call) and isinstance(it.func, ast.Name) and it.func.id == "zip" and all(k.arg == "strict" for k in it.keywords):
+        it = ast.copy_location(ast.Call(func=it.func, args=it.args, keywords=[]), it)
+    if isinstance(it, ast.Call) and isinstance(it.func, ast.Name) and it.func.id == "enumerate" and 1 <= len(it.args) <= 2 \
+            and all(k.arg == "start" for k in it.keywords) and len(it.args) + len(it.keywords) == 2 \
+            and isinstance(target, (ast.Tuple, ast.List)) and len(target.elts) == 2:
+        start = it.args[1] if len(it.args) == 2 else it.keywords[0].value
+        if name in au.assigned_names(target.elts[0]):
+            return ast.BinOp(left=call("__index__", it.args[0]), op=ast.Add(), right=clone(start)) if isinstance(target.elts[0], ast.Name) else None
+        return loop_binding(target.elts[1], it.args[0], name)
     if isinstance(it, ast.Call) and isinstance(it.func, ast.Name) and not it.keywords:
         f = it.func.id
         if f == "range":
@@ -114,8 +132,31 @@ KILL = object()
 
 
 class Flow:
-    def __init__(self, fn):
+    def __init__(self, fn, helpers=None):
+        """`helpers`: name -> FunctionDef of the private helpers of the module (`"self.name"` for the private methods of the class);
+        a call to one of them is replaced by the value it returns (see `inline_calls`) in every resolved expression"""
         self.fn = fn
+        self.helpers = {k: v for k, v in (helpers or {}).items() if v is not fn and not k.startswith("record:") and not k.startswith("const:")}
+        self.consts = {k[len("const:"):]: v for k, v in (helpers or {}).items() if k.startswith("const:")}
+        self.locals_ = ({n.id for n in au.walk(fn) if isinstance(n, ast.Name) and isinstance(n.ctx, ast.Store)} | set(au.params(fn))) \
+            if isinstance(fn, (ast.FunctionDef, ast.AsyncFunctionDef)) else set()
+        # functions defined inside `fn` are helpers too; their free variables are those of `fn` (re-resolved at the call site)
+        self.nested = {}
+        if isinstance(fn, (ast.FunctionDef, ast.AsyncFunctionDef)):
+            for st in au.stmts(fn.body):
+                if isinstance(st, ast.FunctionDef) and st.name not in self.helpers:
+                    self.nested[st.name] = st
+            for st in au.stmts(fn.body):
+                if isinstance(st, ast.Assign) and len(st.targets) == 1 and isinstance(st.targets[0], ast.Name) and isinstance(st.value, ast.Lambda) \
+                        and st.targets[0].id in self.nested:
+                    del self.nested[st.targets[0].id]
+            self.helpers.update(self.nested)
+        self.records = {}
+        for k, v in (helpers or {}).items():
+            if k.startswith("record:"):
+                info = record_info(v) or object_info(v)
+                if info is not None:
+                    self.records[k[len("record:"):]] = info
         self.params = set(au.params(fn)) if isinstance(fn, (ast.FunctionDef, ast.AsyncFunctionDef)) else set()
 
     # ---------------------------------------------------------------- definitions
@@ -238,7 +279,9 @@ class Flow:
         cur = au.enclosing_stmt(at)
         # a walrus earlier in the same statement (e.g. in the test of the `if` whose body we are not in) is handled by the owner scan
         first = True
-        while cur is not None and not isinstance(cur, (ast.FunctionDef, ast.AsyncFunctionDef, ast.Module)):
+        while cur is not None and cur is not self.fn and not isinstance(cur, ast.Module):
+            if isinstance(cur, (ast.FunctionDef, ast.AsyncFunctionDef, ast.Lambda)) and cur is not at and name in au.params(cur):
+                return None         # a parameter of the nested function we are leaving
             blk, owner = au.enclosing_block(cur)
             if blk is None:
                 if isinstance(owner, ast.ExceptHandler):
@@ -308,7 +351,23 @@ class Flow:
     # ---------------------------------------------------------------- resolution
     def resolve(self, expr, at=None, keep=(), depth=12):
         at = at if at is not None else expr
-        return _resolve_tree(expr, at, self, frozenset(keep), depth, frozenset())
+        out = _resolve_tree(expr, at, self, frozenset(keep), depth, frozenset())
+        if out is None or not (self.helpers or self.records or any(isinstance(n, ast.Dict) for n in ast.walk(out))):
+            return out
+        for _ in range(3):      # helpers return objects, objects have methods that call helpers ...
+            before = ast.dump(out)
+            if any(isinstance(n, ast.Dict) for n in ast.walk(out)):
+                out = _Dispatch().visit(out)
+            out = _ElemOfComp().visit(out)
+            if self.records:
+                out = _Records(self.records, self.helpers, 3).visit(out)
+            if self.helpers and any(isinstance(n, ast.Call) for n in ast.walk(out)):
+                out = inline_calls(out, self.helpers, depth=3)
+            if ast.dump(out) == before:
+                break
+        if self.nested and any(isinstance(n, ast.Name) and isinstance(n.ctx, ast.Load) for n in ast.walk(out)):
+            out = _resolve_tree(out, at, self, frozenset(keep) | frozenset(self.nested), depth, frozenset())
+        return out
 
     def lookup(self, name, at):
         """(definition, site) of `name` reaching `at`; definition None when there is none the analysis understands"""
@@ -317,6 +376,61 @@ class Flow:
         if d is None or d is KILL:
             return None, None
         return d, self._site
+
+
+class _NoFlow:
+    """resolution context of module-level expressions: no local definitions"""
+    helpers, records, consts, locals_, nested, params = {}, {}, {}, set(), {}, set()
+
+    def lookup(self, name, at):
+        return None, None
+
+
+_NOFLOW = _NoFlow()
+
+
+class _ElemOfComp(ast.NodeTransformer):
+    """`__elem__([E for v in X])` -> E once v has been substituted in E (the element of a comprehension is its element expression)"""
+
+    def visit_Subscript(self, node):
+        self.generic_visit(node)
+        k = au.const(node.slice) if not isinstance(node.slice, (ast.Slice, ast.Tuple)) else None
+        if isinstance(node.value, (ast.Tuple, ast.List)) and isinstance(k, int) and not isinstance(k, bool) \
+                and not any(isinstance(x, ast.Starred) for x in node.value.elts) and -len(node.value.elts) <= k < len(node.value.elts):
+            return node.value.elts[k]        # (a, b)[0] -> a
+        return node
+
+    def visit_Call(self, node):
+        self.generic_visit(node)
+        if is_synth(node, "__elem__") and len(node.args) == 1:
+            c = strip_calls(node.args[0], ("list", "tuple", "iter"))
+            if isinstance(c, (ast.ListComp, ast.GeneratorExp)) and len(c.generators) == 1 and not c.generators[0].ifs \
+                    and not (set(au.assigned_names(c.generators[0].target)) & au.names(c.elt)):
+                return c.elt
+        return node
+
+
+class _Dispatch(ast.NodeTransformer):
+    """`{k1: v1, k2: v2}[key]` -> `v1 if key == k1 else v2` (a missing key raises either way);  `(f if c else g)(args)` -> `f(args) if c else g(args)`"""
+
+    def visit_Subscript(self, node):
+        self.generic_visit(node)
+        d = node.value
+        if isinstance(d, ast.Dict) and d.keys and all(isinstance(k, ast.Constant) for k in d.keys) and not isinstance(node.slice, (ast.Slice, ast.Tuple)):
+            out = d.values[-1]
+            for k, v in reversed(list(zip(d.keys[:-1], d.values[:-1]))):
+                out = ast.IfExp(test=ast.Compare(left=clone(node.slice), ops=[ast.Eq()], comparators=[k]), body=v, orelse=out)
+            return ast.fix_missing_locations(ast.copy_location(out, node)) if hasattr(node, "lineno") else out
+        return node
+
+    def visit_Call(self, node):
+        self.generic_visit(node)
+        if isinstance(node.func, ast.IfExp):
+            f = node.func
+            mk = lambda fn_: self.visit_Call(ast.Call(func=fn_, args=[clone(a) for a in node.args],
+                                                      keywords=[ast.keyword(arg=k.arg, value=clone(k.value)) for k in node.keywords]))
+            return ast.IfExp(test=f.test, body=mk(f.body), orelse=mk(f.orelse))
+        return node
 
 
 def _resolve_tree(expr, at, flow, keep, depth, busy):
@@ -335,6 +449,9 @@ def _resolve_tree(expr, at, flow, keep, depth, busy):
                 return clone(node)
             d, dsite = flow.lookup(node.id, origin)
             if d is None:
+                if node.id in flow.consts and node.id not in flow.locals_ and len(busy) < 8:
+                    # a named constant / lookup table of the module
+                    return _resolve_tree(flow.consts[node.id], origin, _NOFLOW, keep, depth - 1, busy | {key})
                 return clone(node)
             if getattr(d, "_parent", None) is not None:
                 dsite = d
@@ -347,7 +464,37 @@ def _resolve_tree(expr, at, flow, keep, depth, busy):
             return new
         if not isinstance(node, ast.AST):
             return node
+        if isinstance(node, ast.Call) and isinstance(node.func, ast.Name) and node.func.id in flow.records \
+                and not isinstance(flow.records[node.func.id][0], ast.FunctionDef) and len(node.args) == 1 \
+                and isinstance(node.args[0], ast.Starred) and isinstance(node.args[0].value, (ast.GeneratorExp, ast.ListComp)):
+            # Rec(*(f(x) for x in seq)): one element per field, taken before the comprehension variable is resolved
+            info = flow.records[node.func.id]
+            free = [f for f in info[0] if f not in {k.arg for k in node.keywords}]
+            here_ = node if getattr(node, "_parent", None) is not None else site
+            new = ast.Call(func=clone(node.func), args=[rec(index(node.args[0].value, k), here_, bound) for k in range(len(free))],
+                           keywords=[ast.keyword(arg=k.arg, value=rec(k.value, here_, bound)) for k in node.keywords])
+            return ast.copy_location(new, node)
+        if isinstance(node, COMPS) and getattr(node, "_parent", None) is None and not isinstance(node, ast.DictComp) \
+                and all(not g.ifs for g in node.generators):
+            # a comprehension that is itself the value of a name (cloned, no position of its own): its variables are bound here
+            new = type(node)()
+            gens, local = [], {}
+            for g in node.generators:
+                it = rec(g.iter, site, bound)
+                if local:
+                    it = sym.subst(it, local)
+                for nm in au.assigned_names(g.target):
+                    v = loop_binding(g.target, it, nm)
+                    if v is not None and nm not in keep:
+                        local[nm] = v
+                gens.append(ast.comprehension(target=clone(g.target), iter=it, ifs=[], is_async=g.is_async))
+            elt = rec(node.elt, site, bound | {x for g in node.generators for x in au.assigned_names(g.target)})
+            new.elt = sym.subst(elt, local) if local else elt
+            new.generators = gens
+            return ast.copy_location(new, node) if hasattr(node, "lineno") else new
         if isinstance(node, ast.NamedExpr):
+            if node.target.id in keep:
+                return ast.Name(id=node.target.id, ctx=ast.Load())
             return rec(node.value, site, bound)
         new = type(node)()
         here = node if getattr(node, "_parent", None) is not None else site
@@ -460,6 +607,43 @@ def function_value(fn):
     """the value returned by a small helper as one expression over its parameters (conditional expressions for its branches);
     None when the helper is not a straight if / return structure (loops that return, try, with ...)"""
     fl = Flow(fn)
+    yields = [n for n in au.walk(fn) if isinstance(n, (ast.Yield, ast.YieldFrom))]
+    if yields:
+        # a generator helper of the form `for x in seq: ...; yield E`: the sequence (E for x in seq)
+        body = [st for st in fn.body if not (isinstance(st, ast.Expr) and isinstance(st.value, ast.Constant))]
+        loops = [st for st in body if isinstance(st, ast.For)]
+        if len(yields) == 1 and isinstance(yields[0], ast.Yield) and yields[0].value is not None and len(loops) == 1 and body[-1] is loops[0] \
+                and not loops[0].orelse and not any(isinstance(n, (ast.Return, ast.Break, ast.Continue)) for n in au.walk(fn)) \
+                and all(isinstance(st, (ast.Assign, ast.AnnAssign)) for st in body[:-1]):
+            loop = loops[0]
+            ys = au.enclosing_stmt(yields[0])
+            if isinstance(ys, ast.Expr) and ys.value is yields[0] and ys in loop.body and ys is loop.body[-1] \
+                    and all(isinstance(st, (ast.Assign, ast.AnnAssign)) for st in loop.body[:-1]):
+                elt = fl.resolve(yields[0].value, at=ys)
+                it = fl.resolve(loop.iter, at=loop)
+                return ast.GeneratorExp(elt=elt, generators=[ast.comprehension(target=clone(loop.target), iter=it, ifs=[], is_async=0)])
+        return None
+
+    # the fill idiom `X = zeros(...); for i, r in enumerate(S): X[i, :] = E(r); return X`  ==  [E(r) for r in S]
+    body = [st for st in fn.body if not (isinstance(st, ast.Expr) and isinstance(st.value, ast.Constant))]
+    if len(body) == 3 and isinstance(body[0], ast.Assign) and len(body[0].targets) == 1 and isinstance(body[0].targets[0], ast.Name) \
+            and isinstance(body[0].value, ast.Call) and au.call_tail(body[0].value) in ("zeros", "empty", "ones", "zeros_like", "empty_like") \
+            and isinstance(body[1], ast.For) and not body[1].orelse and isinstance(body[2], ast.Return) \
+            and isinstance(body[2].value, ast.Name) and body[2].value.id == body[0].targets[0].id:
+        arr, loop = body[0].targets[0].id, body[1]
+        stores = [st for st in au.stmts(loop.body) if any(isinstance(t, ast.Subscript) and isinstance(t.value, ast.Name) and t.value.id == arr
+                                                          for t in au.assign_targets(st))]
+        others = [n for n in au.walk(loop) if isinstance(n, ast.Name) and n.id == arr]
+        if len(stores) == 1 and isinstance(stores[0], ast.Assign) and stores[0] in loop.body and len(others) == 1 \
+                and not any(isinstance(n, (ast.Break, ast.Continue, ast.Return)) for n in au.walk(loop)):
+            tg = stores[0].targets[0]
+            idx = tg.slice.elts[0] if isinstance(tg.slice, ast.Tuple) and tg.slice.elts else tg.slice
+            rest_full = not isinstance(tg.slice, ast.Tuple) or all(isinstance(x, ast.Slice) and x.lower is None and x.upper is None and x.step is None
+                                                                   for x in tg.slice.elts[1:])
+            counter = fl.resolve(idx, at=stores[0]) if isinstance(idx, ast.Name) else None
+            if rest_full and counter is not None and (is_synth(counter, "__index__") or is_synth(counter, "__range__")):
+                elt = fl.resolve(stores[0].value, at=stores[0])
+                return ast.ListComp(elt=elt, generators=[ast.comprehension(target=clone(loop.target), iter=fl.resolve(loop.iter, at=loop), ifs=[], is_async=0)])
 
     def val(stmts):
         for i, st in enumerate(stmts):
@@ -485,8 +669,216 @@ def function_value(fn):
     return val(list(fn.body))
 
 
+def module_constants(tree):
+    """name -> value node of the names bound exactly once at module level to a literal (numbers, strings, tuples / lists / dicts of
+    literals and of names, arithmetic of those): lookup tables and named constants"""
+    counts, values = {}, {}
+    for st in tree.body:
+        for t in au.assign_targets(st) if isinstance(st, (ast.Assign, ast.AnnAssign, ast.AugAssign)) else []:
+            for n in au.assigned_names(t):
+                counts[n] = counts.get(n, 0) + 1
+        if isinstance(st, (ast.FunctionDef, ast.AsyncFunctionDef, ast.ClassDef)):
+            counts[st.name] = counts.get(st.name, 0) + 2
+        if isinstance(st, ast.Assign) and len(st.targets) == 1 and isinstance(st.targets[0], ast.Name):
+            values[st.targets[0].id] = st.value
+        elif isinstance(st, ast.AnnAssign) and isinstance(st.target, ast.Name) and st.value is not None:
+            values[st.target.id] = st.value
+
+    def literal(e, depth=0):
+        if depth > 6:
+            return False
+        if isinstance(e, ast.Constant):
+            return True
+        if isinstance(e, ast.Name):
+            return True
+        if isinstance(e, (ast.Tuple, ast.List, ast.Set)):
+            return all(literal(x, depth + 1) for x in e.elts)
+        if isinstance(e, ast.Dict):
+            return all(k is not None and literal(k, depth + 1) for k in e.keys) and all(literal(v, depth + 1) for v in e.values)
+        if isinstance(e, ast.UnaryOp):
+            return literal(e.operand, depth + 1)
+        if isinstance(e, ast.BinOp):
+            return literal(e.left, depth + 1) and literal(e.right, depth + 1)
+        if isinstance(e, ast.Attribute):
+            return au.chain(e) is not None
+        return False
+    return {n: v for n, v in values.items() if counts.get(n) == 1 and literal(v)}
+
+
+def record_info(cls):
+    """(fields, defaults, methods) of a NamedTuple / dataclass declaration, None for any other class"""
+    is_nt = any(au.src(b).split(".")[-1] == "NamedTuple" for b in cls.bases)
+    is_dc = any((au.chain(d.func if isinstance(d, ast.Call) else d) or [""])[-1] == "dataclass" for d in cls.decorator_list)
+    if not (is_nt or is_dc):
+        return None
+    fields, defaults = [], {}
+    for st in cls.body:
+        if isinstance(st, ast.AnnAssign) and isinstance(st.target, ast.Name):
+            fields.append(st.target.id)
+            if st.value is not None:
+                defaults[st.target.id] = st.value
+    methods = {st.name: st for st in cls.body if isinstance(st, ast.FunctionDef)}
+    if "__init__" in methods or "__new__" in methods or "__post_init__" in methods:
+        return None
+    methods = {k: v for k, v in methods.items() if not v.decorator_list or all(isinstance(d, ast.Name) and d.id == "property" for d in v.decorator_list)}
+    return fields, defaults, methods
+
+
+def object_info(cls):
+    """a plain class whose constructor only stores values computed from its arguments: (__init__, {attribute: expression over
+    the parameters}, methods); None for anything else (inheritance, computed state, properties with setters are not followed)"""
+    if cls.bases or cls.decorator_list:
+        return None
+    methods = {st.name: st for st in cls.body if isinstance(st, ast.FunctionDef)}
+    init = methods.get("__init__")
+    if init is None or "__new__" in methods or "__getattr__" in methods or "__getattribute__" in methods:
+        return None
+    if init.args.vararg or init.args.kwarg:
+        return None
+    attrs = {}
+    for st in init.body:
+        if isinstance(st, ast.Expr) and isinstance(st.value, ast.Constant):
+            continue
+        if isinstance(st, ast.If) and not st.orelse and all(isinstance(x, ast.Raise) for x in st.body):
+            continue
+        if isinstance(st, ast.Assign) and len(st.targets) == 1 and au.is_self_attr(st.targets[0]) and st.targets[0].attr not in attrs:
+            if any(au.is_self_attr(n) for n in ast.walk(st.value)):
+                return None
+            attrs[st.targets[0].attr] = st.value
+            continue
+        return None
+    # attributes rebound by other methods are not constructor state
+    for m in methods.values():
+        if m is init:
+            continue
+        for n in ast.walk(m):
+            if isinstance(n, ast.Attribute) and isinstance(n.ctx, (ast.Store, ast.Del)) and au.is_self_attr(n) and n.attr in attrs:
+                return None
+    plain = {k: v for k, v in methods.items() if not v.decorator_list and not (k.startswith("__") and k != "__call__")}
+    return init, attrs, plain
+
+
+def record_fields(ctor, info):
+    """field name -> argument expression of the constructor call `ctor` of a record class; None when the binding is not plain"""
+    fields, defaults, _ = info
+    pos = []
+    for a in ctor.args:
+        if isinstance(a, ast.Starred):
+            v = a.value
+            if isinstance(v, (ast.Tuple, ast.List)) and not any(isinstance(x, ast.Starred) for x in v.elts):
+                pos += list(v.elts)
+            elif isinstance(v, (ast.GeneratorExp, ast.ListComp)) and not pos and len(ctor.args) == 1:
+                n_free = len([f for f in fields if f not in {k.arg for k in ctor.keywords}])
+                pos += [index(v, k) for k in range(n_free)]       # the record takes one element per field
+            else:
+                return None
+        else:
+            pos.append(a)
+    if len(pos) > len(fields) or any(k.arg is None for k in ctor.keywords):
+        return None
+    out = dict(zip(fields, pos))
+    for k in ctor.keywords:
+        out[k.arg] = k.value
+    for f in fields:
+        if f not in out:
+            if f not in defaults:
+                return None
+            out[f] = defaults[f]
+    return out
+
+
+class _Records(ast.NodeTransformer):
+    """`Rec(a, b).field` -> `a`;  `Rec(a, b).method(x)` -> the value returned by the method with `self.field` read from the constructor"""
+
+    def __init__(self, records, functions, depth):
+        self.records, self.functions, self.depth = records, functions, depth
+
+    def _ctor(self, e):
+        if isinstance(e, ast.Call) and isinstance(e.func, ast.Name) and e.func.id in self.records:
+            info = self.records[e.func.id]
+            if isinstance(info[0], ast.FunctionDef):        # object_info: (__init__, attributes, methods)
+                mapping = bind_args(info[0], e, method=True)
+                if mapping is None:
+                    return None
+                return (list(info[1]), {}, info[2]), {k: sym.subst(v, mapping) for k, v in info[1].items()}
+            fv = record_fields(e, info)
+            if fv is not None:
+                return info, fv
+        return None
+
+    def visit_Attribute(self, node):
+        self.generic_visit(node)
+        c = self._ctor(node.value)
+        if c is not None and node.attr in c[1] and isinstance(node.ctx, ast.Load):
+            return clone(c[1][node.attr])
+        return node
+
+    def visit_Call(self, node):
+        self.generic_visit(node)
+        f = node.func
+        if isinstance(f, ast.Attribute) and self.depth > 0:
+            c = self._ctor(f.value)
+            if c is not None and f.attr in c[0][2]:
+                m = c[0][2][f.attr]
+                mapping = bind_args(m, node, method=True)
+                v = function_value(m)
+                names = [p.arg for p in m.args.posonlyargs + m.args.args]
+                if mapping is not None and v is not None and v is not RAISES and names:
+                    mapping = dict(mapping)
+                    mapping[names[0]] = f.value
+                    out = sym.subst(v, mapping)
+                    out = _Records(self.records, self.functions, self.depth - 1).visit(out)
+                    return inline_calls(out, self.functions, self.depth - 1) if self.functions else out
+        return node
+
+
+def helper_key(call):
+    """the key under which the callee of `call` would be listed in a helper table: `name` or `self.name`"""
+    f = call.func
+    if isinstance(f, ast.Name):
+        return f.id
+    if isinstance(f, ast.Attribute) and isinstance(f.value, ast.Name) and f.value.id in ("self", "cls"):
+        return "self." + f.attr
+    return None
+
+
+def bind_args(fn, call, method=False):
+    """parameter name -> argument expression of `call` to the helper `fn` (defaults filled in); None when the binding is not plain"""
+    if any(k.arg is None for k in call.keywords):
+        return None
+    a = fn.args
+    if a.vararg or a.kwarg:
+        return None
+    names = [p.arg for p in a.posonlyargs + a.args]
+    defaults = dict(zip(names[len(names) - len(a.defaults):], a.defaults)) if a.defaults else {}
+    static = any(isinstance(d, ast.Name) and d.id == "staticmethod" for d in fn.decorator_list)
+    if method and not static:
+        names = names[1:]
+    if any(isinstance(x, ast.Starred) for x in call.args):
+        # f(x, *seq): when no parameter left has a default the sequence holds exactly one value per remaining parameter
+        stars = [x for x in call.args if isinstance(x, ast.Starred)]
+        if len(stars) != 1 or call.args[-1] is not stars[0] or defaults:
+            return None
+        free = [n for n in names[len(call.args) - 1:] if n not in {k.arg for k in call.keywords}]
+        call = ast.Call(func=call.func, args=list(call.args[:-1]) + [index(stars[0].value, k) for k in range(len(free))], keywords=call.keywords)
+    if len(call.args) > len(names):
+        return None
+    mapping = dict(zip(names, call.args))
+    for k in call.keywords:
+        mapping[k.arg] = k.value
+    for p_, d_ in zip(a.kwonlyargs, a.kw_defaults):
+        if d_ is not None:
+            defaults[p_.arg] = d_
+    for n_ in names + [p_.arg for p_ in a.kwonlyargs]:
+        if n_ not in mapping:
+            if n_ not in defaults:
+                return None
+            mapping[n_] = defaults[n_]
+    return mapping
+
+
 def inline_calls(e, functions, depth=2):
-    """calls `f(args)` to the helpers `functions` (name -> FunctionDef) replaced by the value they return"""
+    """calls `f(args)` / `self.f(args)` to the helpers `functions` (name | "self.name" -> FunctionDef) replaced by the value they return"""
     if depth <= 0 or e is None:
         return e
     cache = {}
@@ -494,30 +886,54 @@ def inline_calls(e, functions, depth=2):
     class T(ast.NodeTransformer):
         def visit_Call(self, node):
             self.generic_visit(node)
-            if isinstance(node.func, ast.Name) and node.func.id in functions and not any(isinstance(a, ast.Starred) for a in node.args) \
-                    and not any(k.arg is None for k in node.keywords):
-                fn = functions[node.func.id]
-                if fn.name not in cache:
-                    cache[fn.name] = function_value(fn)
-                v = cache[fn.name]
+            key = helper_key(node)
+            if key is not None and key in functions:
+                fn = functions[key]
+                if key not in cache:
+                    cache[key] = function_value(fn)
+                v = cache[key]
                 if v is None or v is RAISES:
                     return node
-                a = fn.args
-                if a.vararg or a.kwarg:
+                mapping = bind_args(fn, node, method=key.startswith("self."))
+                if mapping is None:
                     return node
-                names = [p.arg for p in a.posonlyargs + a.args]
-                mapping = dict(zip(names, node.args))
-                for k in node.keywords:
-                    mapping[k.arg] = k.value
-                defaults = dict(zip(names[len(names) - len(a.defaults):], a.defaults)) if a.defaults else {}
-                for p_, d_ in zip(a.kwonlyargs, a.kw_defaults):
-                    if d_ is not None:
-                        defaults[p_.arg] = d_
-                for n_ in names + [p_.arg for p_ in a.kwonlyargs]:
-                    if n_ not in mapping:
-                        if n_ not in defaults:
-                            return node
-                        mapping[n_] = defaults[n_]
                 return inline_calls(sym.subst(v, mapping), functions, depth - 1)
             return node
     return T().visit(clone(e))
+
+
+def appended_values(flow, attr, depth=2, verbs=("append", "extend")):
+    """values stored into `<mesh>.<attr>` by the function of `flow`, directly or by the helpers (flow.helpers) the mesh is handed to:
+    [(statement of the function to report at, resolved value)]; values of helpers are expressed in the caller's terms"""
+    fn = flow.fn
+    out = []
+    for st in au.stmts(fn.body):
+        v = None
+        callee = st.value.func if isinstance(st, ast.Expr) and isinstance(st.value, ast.Call) else None
+        if isinstance(callee, ast.Name) and callee.id not in flow.helpers:
+            callee = flow.resolve(callee, at=st)         # add_vertex = out.vertices.append
+        if isinstance(callee, ast.Attribute) and callee.attr in verbs and isinstance(callee.value, ast.Attribute) \
+                and callee.value.attr == attr and st.value.args:
+            v = st.value.args[0]
+        elif isinstance(st, ast.AugAssign) and isinstance(st.op, ast.Add) and isinstance(st.target, ast.Attribute) and st.target.attr == attr:
+            v = st.value
+        if v is not None:
+            out.append((st, flow.resolve(v, at=st)))
+    if depth > 0 and flow.helpers:
+        for c in au.calls(fn):
+            key = helper_key(c)
+            if key is None or key not in flow.helpers:
+                continue
+            h = flow.helpers[key]
+            mapping = bind_args(h, c, method=key.startswith("self."))
+            sub = appended_values(Flow(h, flow.helpers), attr, depth - 1, verbs)
+            if not sub:
+                continue
+            st = au.enclosing_stmt(c)
+            if mapping is None:
+                out.append((st, None))
+                continue
+            mapping = {k: flow.resolve(v, at=c) for k, v in mapping.items()}
+            for _, val in sub:
+                out.append((st, sym.subst(val, mapping) if val is not None else None))
+    return out
